@@ -3,7 +3,7 @@
 Used with independently authored behaviour-preserving refactorings: any VIOLATION is a false alarm to be examined
 (development / self-test only, never part of a registered command)."""
 import os, subprocess, sys
-d = sys.argv[1]
+d = os.path.abspath(sys.argv[1])
 tier = ['--tier', sys.argv[sys.argv.index('--tier') + 1]] if '--tier' in sys.argv else []
 bad = 0
 for f in sorted(os.listdir(d)):
